@@ -237,7 +237,7 @@ pub fn builtin_vector_get<E: Effect>(
     let bytes = executor.materialize(binary)?;
 
     let Some(index) = index.try_into().ok().filter(|i: &usize| {
-        bytes.len() % width == 0 && (*i + 1).saturating_mul(width) <= bytes.len()
+        bytes.len() % width == 0 && i.saturating_add(1).saturating_mul(width) <= bytes.len()
     }) else {
         return Ok(nil());
     };
